@@ -204,7 +204,7 @@ func run(id, tier string, seed uint64, jobs int, keep bool) int {
 		fmt.Fprintln(os.Stderr, err)
 		return inconclusive("build-failed")
 	}
-	if id == "C09" {
+	if id == "C09" && tier == "thorough" {
 		buildView(work) // tools/view for the syscall-level cross-check (best effort)
 	}
 	// metadata from the child itself
